@@ -33,6 +33,8 @@ pub mod s_zst;
 pub mod s_two;
 
 pub mod generated;
+#[cfg(not(kani))]
+pub mod e2replay;
 
 /// Property masks (bit k = property Ck).
 pub const C01: u32 = 1 << 1;
